@@ -28,6 +28,7 @@ class Gen(object):
         self.fresh = 0
         self.switches = []
         self.everdefined = set()
+        self.order = {}
 
     # --- patterns ---------------------------------------------------------------------
     PATTERNS = {
@@ -68,7 +69,10 @@ class Gen(object):
             k = n
             if hasopt:
                 k -= 1
-                if self.rnd.random() < 0.5:
+                r = self.rnd.random()
+                if r < 0.15:
+                    toks += ['[', ']']                       # present but empty: NOT the default
+                elif r < 0.55:
                     toks += ['['] + self.text(avoid=']') + [']']
             for _ in range(k):
                 toks += ['{'] + self.arg_tokens(depth, nparams=nparams) + ['}']
@@ -126,12 +130,32 @@ class Gen(object):
         # the body may not call the name being (re)defined, directly or through a macro whose body calls it
         # (no recursion, NF-MACRO a): a redefined name and everything defined after its last definition that
         # might call it are hidden while the body is generated -- simplest sound choice: names are defined once
+        redefine = False
         if name in self.defs or name in self.everdefined:
             free = [n for n in NAMES if n not in self.everdefined]
-            if not free:
+            if name in self.defs and name in self.order and self.defs[name] != 'nc' and self.rnd.random() < 0.5:
+                # redefinition: the new body may only call names first defined BEFORE this one (no recursion
+                # through bodies that already call it)
+                redefine = True
+            elif not free:
                 return self.text()
-            name = free[0]
+            else:
+                name = free[0]
         self.everdefined.add(name)
+        self.order.setdefault(name, len(self.order))
+        hidden = {}
+        if redefine:
+            for n in list(self.defs):
+                if self.order.get(n, 10 ** 6) >= self.order[name]:
+                    hidden[n] = self.defs.pop(n)
+        try:
+            return self._definition(name, depth, top and not redefine, hidden.get(name) if redefine else None)
+        finally:
+            for n, k in hidden.items():
+                if n != name:
+                    self.defs.setdefault(n, k)
+
+    def _definition(self, name, depth, top, forced_kind=None):
         r = self.rnd.random()
         if top and len(self.scopes) == 1 and r < 0.2:
             n = self.rnd.randint(0, 3)
@@ -142,9 +166,10 @@ class Gen(object):
             self.defs[name] = 'nc'
             self.ncinfo[name] = (n, hasopt)
             return toks
-        kind = self.rnd.choice(list(self.PATTERNS))
+        # a redefinition keeps the parameter pattern: bodies written earlier call it with that pattern
+        kind = forced_kind or self.rnd.choice(list(self.PATTERNS))
         pat, n = self.PATTERNS[kind]
-        glob = self.rnd.random() < 0.25 and not any(name in s for s in self.scopes[1:])
+        glob = self.rnd.random() < 0.25 and not any(name in s for s in self.scopes)     # the document body is a group too
         # body may only call earlier names (no recursion): generate before registering
         b = self.body(depth, n)
         toks = ['\\gdef' if glob else '\\def', name] + pat + ['{'] + b + ['}']
@@ -203,7 +228,14 @@ class Gen(object):
                 args = []
                 for _ in range(k):
                     args += ['{'] + self.text() + ['}']
-                return ['\\def', '\\vxp', '{'] + args + ['}', '\\expandafter', n, '\\vxp']
+                self.fresh += 1
+                p = '\\vxp' + 'abcdefghijklmnopqrstuvwxyz'[self.fresh % 26] + 'abcdefghijklmnopqrstuvwxyz'[(self.fresh // 26) % 26]
+                t = ['\\def', p, '{'] + args + ['}', '\\expandafter', n, p]
+                if self.rnd.random() < 0.6:
+                    t += ['\\expandafter', n, p]              # the provider macro must be unchanged by the first use
+                if self.rnd.random() < 0.5:
+                    t += ['<', p, '>']
+                return t
             return self.text()
         if self.conds:
             return self.conditional(depth, 0)
@@ -300,7 +332,13 @@ def program(rnd, conds=False, nstmt=None, maxdepth=3):
         g.switches = ['vxsa', 'vxsb', 'vxsc']
     toks = list(PRELUDE_CONDS) if conds else []
     for _ in range(nstmt or rnd.randint(2, 7)):
-        if conds and rnd.random() < 0.6:
+        if conds and rnd.random() < 0.08:
+            # a switch declared again (it is false at that point, so a fresh switch and the old one agree)
+            sw = rnd.choice(g.switches)
+            toks += ['\\' + sw + 'false', '\\newif', '\\if' + sw]
+            if rnd.random() < 0.7:
+                toks += ['\\' + sw + 'true']
+        elif conds and rnd.random() < 0.6:
             toks += g.conditional(0, 0)
         else:
             toks += g.statement(0)
